@@ -100,29 +100,41 @@ def _is_const(body, o, name=None, val=None):
     return k.get("int") == val
 
 def check_guard(ctx, key, body, adt, op):
-    """push: the branch that reports 'full' is taken iff head >= BUFFER_SIZE; pop: 'empty' iff head == 0"""
+    """push: the branch that reports 'full' is taken iff head >= BUFFER_SIZE; pop: 'empty' iff head == 0 -- judged on the canonical form of the comparison
+    (operand order, strict / non-strict spelling and negation do not matter: `N <= head`, `!(head < N)`, `head < 1`, `0 == head` ...)"""
+    import dag as D_
+    dg = D_.Dag(body)
+    is_head = lambda e: D_.strip_casts(e) == ("mem", ("head",))
+    is_n = lambda e: D_.strip_casts(e) == ("gconst", "BUFFER_SIZE")
     found = False
     for b in sorted(body.reachable):
-        t = body.term(b)
-        if t[0] != "Switch": continue
-        l = op_local(t[1])
-        d = body.single_def(l) if l is not None else None
-        if not d or d[2][0] != "Bin": continue
-        if any(tg not in body.can_return for tg in [t[3]] + [a[1] for a in t[2]]): continue       # an assertion restating the bound (one edge only panics)
-        opn, x, y = d[2][1], d[2][2], d[2][3]
-        if op == "push" and _head_read(body, x) and _is_const(body, y, name="BUFFER_SIZE"):
+        c = D_.cmp_of_switch(body, dg, b)
+        if not c: continue
+        if any(tg not in body.can_return for tg in (c[3], c[4])): continue       # an assertion restating the bound (one edge only panics)
+        cb = D_.canon_branch(c)
+        if not cb: continue
+        kind, x, y, T, Fl = cb
+        if op == "push" and kind == "lt" and is_head(x) and is_n(y):
             found = True
-            # canonical: full  <=> head >= N   (Ge true-edge, or Lt false-edge)
-            full_edge = t[3] if opn == "Ge" else (t[2][0][1] if opn == "Lt" else None)
-            ok = opn in ("Ge", "Lt") and full_edge is not None and returns_const(body, full_edge, "bool", 0)
-            ctx.ob("R18.4", f"{key}|full-guard", ok, body.loc(b), f"full test is `head {opn} BUFFER_SIZE`; the full arm must be exactly head >= BUFFER_SIZE and answer false")
-        if op == "pop" and _head_read(body, x) and _is_const(body, y, val=0):
+            ok = returns_const(body, Fl, "bool", 0)           # F: !(head < N) = full
+            ctx.ob("R18.4", f"{key}|full-guard", ok, body.loc(b), "the arm taken when !(head < BUFFER_SIZE) answers false (full) -- and only that arm")
+        elif op == "push" and ((kind == "lt" and is_n(x) and is_head(y)) or (kind == "eq" and {True} == {is_head(x) or is_head(y)} and (is_n(x) or is_n(y)))):
             found = True
-            empty_edge = t[3] if opn == "Eq" else (t[2][0][1] if opn in ("Ne", "Gt") else None)
-            ok = opn in ("Eq", "Ne", "Gt") and empty_edge is not None and returns_const(body, empty_edge, "variant", 0)
-            ctx.ob("R18.4", f"{key}|empty-guard", ok, body.loc(b), f"empty test is `head {opn} 0`; the empty arm must be exactly head == 0 and answer None")
+            ctx.ob("R18.4", f"{key}|full-guard", False, body.loc(b), f"full test is `{D_.show(c[1])} {c[0]} {D_.show(c[2])}`; the full arm must be exactly head >= BUFFER_SIZE")
+        if op == "pop":
+            zero = lambda e: D_.strip_casts(e) == ("const", 0)
+            if kind == "eq" and ((zero(x) and is_head(y)) or (zero(y) and is_head(x))):
+                found = True
+                ctx.ob("R18.4", f"{key}|empty-guard", returns_const(body, T, "variant", 0), body.loc(b), "the arm taken when head == 0 answers None (empty) -- and only that arm")
+            elif kind == "lt" and zero(x) and is_head(y):
+                found = True
+                ctx.ob("R18.4", f"{key}|empty-guard", returns_const(body, Fl, "variant", 0), body.loc(b), "the arm taken when !(0 < head) answers None (empty) -- and only that arm")
+            elif kind in ("lt", "eq") and (is_head(x) or is_head(y)) and any(D_.strip_casts(z)[0] == "const" for z in (x, y)):
+                found = True
+                ctx.ob("R18.4", f"{key}|empty-guard", False, body.loc(b), f"empty test is `{D_.show(c[1])} {c[0]} {D_.show(c[2])}`; the empty arm must be exactly head == 0")
     if not found:
         ctx.ob("R18.4", f"{key}|{'full' if op == 'push' else 'empty'}-guard", False, f"{body.f['file']}:{body.f['line']}", "no recognisable full/empty guard on `head`")
+
 
 def check_data_path(ctx, key, body, adt, op):
     """R18.8 last in, first out: push stores its argument at buffer[head] and then advances head by one, answering true; pop hands out buffer[head - 1] -- read
